@@ -295,3 +295,50 @@ Proof.
     replace ((1 + 1) * 1 / 1 * 1)%R with 2%R by field.
     rewrite Rabs_pos_eq by lra. lra.
 Qed.
+
+(* ---- a second CONVERGENCE theorem (consistency x stability): upwind advection-diffusion on a uniform Cartesian axis (Grid1D), constant
+   d >= 0, constant face velocity uc <> 0 of either sign, kap = alpha/dt + beta >= k0 > 0, over a range of cells where the upwind
+   stencil has its interior form, closure of the error across the ends of the range `nb_homog`: the discrete solution of
+   kap x - d Laplace_h x + uc Upwind_h x = kap f - d f'' + uc f'  is within  (d max|f''''| h^2/12 + |uc| max|f''| h/2) / k0  of f at
+   every cell centre of the range -- first order, with the constant. ---- *)
+From PFV Require Import ConvUpwindThy.
+Theorem C02_convergence_upwind_cartesian_1D : forall (f : R -> R) (m : Mesh ROps) (D u : fvar ROps) (kap x : cvar ROps) (xi : cell -> R)
+  (cells : list cell) (h d uc M4 M2 k0' : R),
+  mcls ROps m = G1 ->
+  cells <> nil ->
+  (forall c a, In c cells -> In a (active_axes ROps m) -> (1 <= cidx a c <= mN ROps m a)%nat /\ signs_ok m D c a) ->
+  (forall a c, u a c = uc) -> uc <> 0%R ->
+  (0 < h)%R -> (0 <= d)%R -> (0 < k0')%R -> (forall c, In c cells -> (k0' <= kap c)%R) ->
+  (forall c, In c cells ->
+     is_lo AX c = false /\ is_hi ROps m AX c = false /\
+     mdxf ROps m AX (cidx AX c) = h /\ mdxf ROps m AX (pred (cidx AX c)) = h /\ mfac ROps m AX c = 1%R /\
+     mA ROps m AX (cidx AX c) = 1%R /\ mA ROps m AX (pred (cidx AX c)) = 1%R /\ mW ROps m AX (cidx AX c) = h /\
+     D AX c = d /\ D AX (cdn AX c) = d) ->
+  (forall t k, (k <= 4)%nat -> ex_derive_n f k t) ->
+  (forall t, (Rabs (Derive_n f 4 t) <= M4)%R) -> (forall t, (Rabs (Derive_n f 2 t) <= M2)%R) ->
+  (forall c, In c cells -> xi (cup AX c) = (xi c + h)%R /\ xi (cdn AX c) = (xi c - h)%R) ->
+  (forall c, In c cells -> Lrow m D u kap x c = (kap c * f (xi c) - d * Derive_n f 2 (xi c) + uc * Derive_n f 1 (xi c))%R) ->
+  (forall c a, In c cells -> In a (active_axes ROps m) ->
+     nb_homog cells (fun c => (x c - f (xi c))%R) c (cdn a c) /\ nb_homog cells (fun c => (x c - f (xi c))%R) c (cup a c)) ->
+  forall c, In c cells -> (Rabs (x c - f (xi c)) <= (d * (M4 * (h * h) / 12) + Rabs uc * (M2 * h / 2)) / k0')%R.
+Proof. exact convergence_upwind_cartesian_1D. Qed.
+Print Assumptions C02_convergence_upwind_cartesian_1D.
+(* its hypotheses are satisfiable (three unit cells, the middle one as the range, d = uc = kap = 1, f(t) = t) *)
+Example C02_convergence_upwind_nonvacuous :
+  let cells := ((2, 0, 0)%nat :: nil) in
+  let x := fun c => exf1 (exxi c) in
+  mcls ROps exR3 = G1 /\ cells <> nil /\
+  (forall c a, In c cells -> In a (active_axes ROps exR3) -> (1 <= cidx a c <= mN ROps exR3 a)%nat /\ signs_ok exR3 exD c a) /\
+  (forall a c, exu1 a c = 1%R) /\ 1%R <> 0%R /\
+  (forall c, In c cells ->
+     is_lo AX c = false /\ is_hi ROps exR3 AX c = false /\
+     mdxf ROps exR3 AX (cidx AX c) = 1%R /\ mdxf ROps exR3 AX (pred (cidx AX c)) = 1%R /\ mfac ROps exR3 AX c = 1%R /\
+     mA ROps exR3 AX (cidx AX c) = 1%R /\ mA ROps exR3 AX (pred (cidx AX c)) = 1%R /\ mW ROps exR3 AX (cidx AX c) = 1%R /\
+     exD AX c = 1%R /\ exD AX (cdn AX c) = 1%R) /\
+  (forall t k, (k <= 4)%nat -> ex_derive_n exf1 k t) /\
+  (forall t, (Rabs (Derive_n exf1 4 t) <= 0)%R) /\ (forall t, (Rabs (Derive_n exf1 2 t) <= 0)%R) /\
+  (forall c, In c cells -> exxi (cup AX c) = (exxi c + 1)%R /\ exxi (cdn AX c) = (exxi c - 1)%R) /\
+  (forall c, In c cells -> Lrow exR3 exD exu1 (fun _ => 1%R) x c = (1 * exf1 (exxi c) - 1 * Derive_n exf1 2 (exxi c) + 1 * Derive_n exf1 1 (exxi c))%R) /\
+  (forall c a, In c cells -> In a (active_axes ROps exR3) ->
+     nb_homog cells (fun c => (x c - exf1 (exxi c))%R) c (cdn a c) /\ nb_homog cells (fun c => (x c - exf1 (exxi c))%R) c (cup a c)).
+Proof. exact convergence_upwind_hyps_satisfiable. Qed.
